@@ -8,7 +8,7 @@
    interleaving of: branch i signalling demand, the upstream pipeline delivering the next element of [input]
    (never more than the hub requested), upstream completing. No branch cancels, no sub-pipeline fails. *)
 From Coq Require Import ZArith List Bool.
-From GV Require Import C46.Model C46.FanIn C46.FanOut C46.Proofs.
+From GV Require Import C46.Model C46.Queue C46.FanIn C46.FanOut C46.Proofs.
 Import ListNotations.
 Open Scope Z_scope.
 
@@ -58,6 +58,13 @@ Theorem C46_hub_routes_every_element : forall k n input e s,
   (e_completed e = true -> route_ok k n input (h_routed s)).
 Proof. exact hub_spec. Qed.
 
+(* The buffer type behind Merge, Concat and the per-slot buffers of Zip (stream/queue.go: backing slice, read
+   index, compaction once the dead prefix reaches half the slice): for EVERY sequence of pushes and pops it
+   returns exactly what a list-backed FIFO returns. (The junction models above use plain lists as buffers.) *)
+Theorem C46_queue_is_fifo : forall ops, g_run q_empty_queue ops = l_run [] ops.
+Proof. exact queue_is_fifo_from_empty. Qed.
+
+Print Assumptions C46_queue_is_fifo.
 Print Assumptions C46_merge_is_an_interleaving.
 Print Assumptions C46_concat_is_append.
 Print Assumptions C46_zip_is_positional.
